@@ -160,6 +160,7 @@ def main(argv=None):
                 path = os.path.join(d, re.sub(r'[^\w.-]', '_', o.name) + '.json')
                 json.dump(dict(rp, replay_message=msg, replay_cmd='./check %s --replay %s' % (a.pid, path)), open(path, 'w'), indent=1, default=str)
                 k = match_known(known, a.pid, o.name, cex)
+                msg = msg + ' | solver: ' + str(r.get('detail'))[:400]
                 if k: knownhits.append((o, k, msg)); rec['known_finding'] = k.get('id')
                 else: viol.append((o, path, msg))
             else:
